@@ -791,3 +791,127 @@ def variants(world, tier="quick", only=None):
     if only:
         extra = [v for v in extra if any(o in v.name for o in only)]
     return out + extra
+
+
+# ---------------------------------------------------------------------------
+# _reset: a parser that has been used reads the next script as a new parser would
+# ---------------------------------------------------------------------------
+MUTATORS = ("add", "update", "append", "extend", "clear", "pop", "remove", "discard", "bind", "unbind", "define", "insert", "setdefault")
+
+
+def parse_time_state(repo):
+    """attributes of the parser object that some method other than __init__/_reset writes or mutates
+    (read from the class body on every run): the state a script can leave behind"""
+    out = {}
+    methods = {}
+    for c in reversed(repo.mro(PARSER)):
+        mi, ci = repo.find_class(c)
+        if ci:
+            methods.update(ci["methods"])
+    for name, fi in sorted(methods.items()):
+        if name in ("__init__", "_reset"):
+            continue
+        for n in _ast.walk(fi.node):
+            tgts = []
+            if isinstance(n, _ast.Assign):
+                tgts = n.targets
+            elif isinstance(n, (_ast.AugAssign, _ast.AnnAssign)) and getattr(n, "value", None) is not None:
+                tgts = [n.target]
+            for t in tgts:
+                for tt in (t.elts if isinstance(t, (_ast.Tuple, _ast.List)) else [t]):
+                    if isinstance(tt, _ast.Subscript):
+                        tt = tt.value
+                    if isinstance(tt, _ast.Attribute) and isinstance(tt.value, _ast.Name) and tt.value.id == "self":
+                        out.setdefault(tt.attr, set()).add(name)
+            if isinstance(n, _ast.Call) and isinstance(n.func, _ast.Attribute) and n.func.attr in MUTATORS:
+                o = n.func.value
+                if isinstance(o, _ast.Attribute) and isinstance(o.value, _ast.Name) and o.value.id == "self":
+                    out.setdefault(o.attr, set()).add(name)
+    return out
+
+
+class ResetVariant(Variant):
+    """_reset() on a parser in an arbitrary used state: every attribute that parsing can write is afterwards what a newly
+    constructed parser holds (the construction is observed natively on the same tree: probe 'fresh')."""
+    prop_ids = ("C08", "C09", "C14", "C15")
+    qualname = PARSER + "._reset"
+    name = "reset:used-parser-reads-as-a-new-one"
+
+    def __init__(self, world):
+        self.world = world
+
+    def setup(self, ex):
+        from pyvc.symex import SetVal
+        W = self.world
+        env = core.make_env(ex, W)
+        self.env = env
+        self.state = parse_time_state(W.repo)
+        # per-stream attributes are set by every _parse_handle / get_command_generator call, not by _reset
+        self.fresh = W.repo.probe.get("fresh", {}).get(PARSER)
+        n1, nd = z3.Const("left_over_name", Str), z3.Const("left_over_definition", Str)
+        self.dirty = {}
+        fields = {"env": env, "interactive": False}
+        for attr in self.state:
+            if attr == "cache":
+                d = mk_cache(env, [(n1, [z3.Const("left_over_binding", Node)])], [(nd, ([], z3.Const("left_over_body", Node)))])
+            elif attr == "_invented_vars":
+                d = SetVal([z3.Const("left_over_variable", Node)])
+            else:
+                d = Obj("builtins.object", {}, tag="left-over:" + attr)
+            self.dirty[attr] = d
+            fields[attr] = d
+        self.p = Obj(PARSER, fields, tag="parser")
+        fi = W.repo.method(PARSER, "_reset")
+        return W.wrap_func(fi, fi.module, bound=self.p), [], {}
+
+    def check(self, ex, outcome):
+        from pyvc.symex import SetVal
+        kind, r = outcome
+        if kind == "raise":
+            return [("no-exception", z3.BoolVal(False))]
+        W = self.world
+        goals = [("state-found", z3.BoolVal(len(self.state) >= 1 and self.fresh is not None))]
+        if self.fresh is None:
+            return goals
+        mgr = self.env.fields["_formula_manager"]
+        for attr in sorted(self.state):
+            want = self.fresh.get(attr)
+            if want is None:
+                # never set by the constructor: created and dropped within one parsing call (stream position etc.)
+                continue
+            got = self.p.fields.get(attr)
+            label = "reset:%s-as-in-a-new-parser" % attr
+            if got is self.dirty[attr]:
+                goals.append((label, z3.BoolVal(False)))
+            elif want["kind"] == "const":
+                c = BI._eq(W, ex, got, want["value"]) if want["value"] is not None else (got is None)
+                goals.append((label, c if is_z3(c) else z3.BoolVal(bool(c))))
+            elif want["kind"] in ("set", "frozenset"):
+                goals.append((label, z3.BoolVal(isinstance(got, SetVal) and len(got.items) == want["len"] == 0 and not got.zextra)))
+            elif want["kind"] == "cache":
+                ok = isinstance(got, Obj) and got.cls == CACHE and isinstance(got.fields.get("keys"), DictVal) \
+                    and isinstance(got.fields.get("definitions"), DictVal)
+                if ok:
+                    keys = got.fields["keys"].items
+                    ok = len(got.fields["definitions"].items) == want["definitions"] and len(keys) == len(want["keys"])
+                    for k, st in keys:
+                        ks = k if isinstance(k, str) else (k.as_string() if is_z3(k) and z3.is_string_value(k) else None)
+                        ok = ok and ks in want["keys"] and isinstance(st, list) and len(st) == len(want["keys"][ks])
+                goals.append((label, z3.BoolVal(bool(ok))))
+            else:
+                goals.append((label + "(unmodelled-kind)", z3.BoolVal(False)))
+        return goals
+
+    def witness(self, model, ex):
+        return {"state": {k: sorted(v) for k, v in self.state.items()}}
+
+
+_base_variants8d = variants
+
+
+def variants(world, tier="quick", only=None):
+    out = _base_variants8d(world, tier, only)
+    extra = [ResetVariant(world)]
+    if only:
+        extra = [v for v in extra if any(o in v.name for o in only)]
+    return out + extra
